@@ -1,9 +1,103 @@
-(* C14 -- property theorems (statements + exact only; proofs in Proofs/C14.v). *)
-From PV Require Import Lib.Base Lib.Round Model.C12 Model.C14 Proofs.C14.
+(* C14 -- performed notes sound until release or later, exactly as the pedal dictates.
+   Statements + `exact` only; proofs are in Proofs/C14*.v.  The model (Model/C14.v) is tied to
+   partitura/performance.py by the correspondence run by harness/props/c14.py on every check;
+   the specification (Model/C14_Spec.v) is defined directly over the unsorted control stream. *)
+From PV Require Import Lib.Base Lib.Round Model.C12 Model.C14 Model.C14_Spec
+  Proofs.C14_so Proofs.C14_spec Proofs.C14.
 From Coq Require Import QArith Qminmax Qabs.
 #[local] Open Scope Q_scope.
 
+(* O2a  every note sounds at least until its release -- all note lists, control streams, thresholds *)
+Theorem sound_off_ge_release : forall thr ns cs,
+  Forall2 (fun n so => n_off n <= so) ns (sound_offs thr ns cs).
+Proof. exact sound_off_ge_release_lemma. Qed.
+Print Assumptions sound_off_ge_release.
+
+(* O1  building a part from notes that pass the field checks (0 <= onset <= release, pitch and
+   velocity in 0..127) never fails, whatever the controls and the threshold *)
+Theorem construction_total : forall thr ns cs,
+  forallb valid_note ns = true -> construct thr ns cs = Some (sound_offs thr ns cs).
+Proof. exact construction_total_lemma. Qed.
+Print Assumptions construction_total.
+
+(* O2b  the computed sounding end is the specified one: the release when the pedal is up then,
+   otherwise the first moment at or after the release with a pedal value <= threshold, the closing
+   moment, or another strike of the same pitch.  Hypotheses: pedal events at distinct times and no
+   zero-length note sharing its onset with another note of its pitch (numpy leaves the order of
+   equal sort keys open), onset <= release. *)
+Theorem sound_off_is_spec : forall thr ns cs,
+  distinct_pedal_times cs -> no_zero_length_tie ns -> released_after_onset ns ->
+  forall i n, nth_error ns i = Some n ->
+  exists s, nth_error (sound_offs thr ns cs) i = Some s /\ sounding_end thr ns cs i n s.
+Proof. exact sound_off_is_spec_lemma. Qed.
+Print Assumptions sound_off_is_spec.
+
+(* the hypotheses are satisfiable by a state in which the pedal extends notes (to a re-strike, to
+   the pedal release) and a higher threshold does not *)
+Theorem sound_off_example :
+  sound_offs 64 ex_notes ex_ctrls = [3; 5; 6] /\ sound_offs 100 ex_notes ex_ctrls = [1; 4; 6] /\
+  distinct_pedal_times ex_ctrls /\ no_zero_length_tie ex_notes /\ released_after_onset ex_notes.
+Proof. exact example_lemma. Qed.
+Print Assumptions sound_off_example.
+
+(* O2c  identity without sustain-pedal events *)
 Theorem no_pedal_identity : forall thr ns cs,
   pedal_events cs = [] -> sound_offs thr ns cs = map n_off ns.
 Proof. exact no_pedal_identity_lemma. Qed.
 Print Assumptions no_pedal_identity.
+
+(* O2d  identity when no controller value exceeds the threshold (MIDI values <= 127, threshold 127) *)
+Theorem thr127_identity : forall thr ns cs,
+  (forall c, In c cs -> (c_val c <= thr)%Z) ->
+  Forall2 (fun n so => so == n_off n) ns (sound_offs thr ns cs).
+Proof. exact thr127_identity_lemma. Qed.
+Print Assumptions thr127_identity.
+
+(* O3a  raising the threshold never lengthens a note -- no hypotheses *)
+Theorem threshold_monotone : forall thr thr' ns cs,
+  (thr <= thr')%Z ->
+  Forall2 (fun so so' => so' <= so) (sound_offs thr ns cs) (sound_offs thr' ns cs).
+Proof. exact threshold_monotone_lemma. Qed.
+Print Assumptions threshold_monotone.
+
+(* O3b  setting the threshold recomputes every note: after any history of assignments ending
+   with t the sound_off column is the one of a part freshly built with threshold t *)
+Theorem setter_recomputes : forall thr0 ns cs ts t,
+  let p := fold_left set_threshold (ts ++ [t]) (new_part thr0 ns cs) in
+  p_so p = sound_offs t ns cs /\ p_thr p = t /\ p_notes p = ns /\ p_ctrls p = cs.
+Proof. exact setter_recomputes_lemma. Qed.
+Print Assumptions setter_recomputes.
+
+(* O4a  note array: onset in seconds and in ticks agree (nearest tick) for all ppq, mpq *)
+Theorem onset_tick_agrees : forall ppq mpq x,
+  Qabs (inject_Z (1000000 * ppq) * r_on (na_row ppq mpq x) / inject_Z mpq
+        - inject_Z (r_on_tick (na_row ppq mpq x))) <= 1 # 2.
+Proof. exact onset_tick_agrees_lemma. Qed.
+Print Assumptions onset_tick_agrees.
+
+(* O4b  duration in ticks agrees with the duration in seconds (two roundings: within one tick)
+   whenever no pedal extends the note *)
+Theorem duration_tick_agrees : forall ppq mpq x,
+  snd x == n_off (fst x) ->
+  Qabs (inject_Z (1000000 * ppq) * r_dur (na_row ppq mpq x) / inject_Z mpq
+        - inject_Z (r_dur_tick (na_row ppq mpq x))) <= 1.
+Proof. exact duration_tick_agrees_lemma. Qed.
+Print Assumptions duration_tick_agrees.
+
+(* O4c  a part rebuilt from its own note array has the same pitches, velocities, onsets and
+   sounding ends *)
+Theorem from_note_array_roundtrip : forall ppq mpq p,
+  List.length (p_notes p) = List.length (p_so p) ->
+  let q := from_note_array (note_array ppq mpq p) in
+  Forall2 (fun n m => n_pitch m = n_pitch n /\ n_vel m = n_vel n /\ n_on m = n_on n) (p_notes p) (p_notes q) /\
+  Forall2 (fun so so' => so' == so) (p_so p) (p_so q).
+Proof. exact from_note_array_roundtrip_lemma. Qed.
+Print Assumptions from_note_array_roundtrip.
+
+(* O5  track renumbering: every (part, track) pair gets a number in 0..n-1, and two pairs get
+   the same number only if they are the same pair (parts are never mixed) *)
+Theorem track_renumber_injective : forall pairs,
+  (forall a, In a pairs -> exists k, track_map pairs a = Some k /\ (0 <= k < Z.of_nat (List.length (track_ids pairs)))%Z) /\
+  (forall a b k, track_map pairs a = Some k -> track_map pairs b = Some k -> a = b).
+Proof. exact track_renumber_lemma. Qed.
+Print Assumptions track_renumber_injective.
